@@ -192,7 +192,7 @@ def gen_pair(rng, hist):
     elif r < 0.93:
         mb, mk = MATCHBY['strcmp'], 'strcmp'
     else:
-        mb, mk = rng.choice(['http://example.org/other', MATCHBY['uri'] + '/', MATCHBY['strcmp'].upper()]), 'unknown'
+        mb, mk = rng.choice([v for v, lab in rules() if lab.startswith('unknown')]), 'unknown'
     hist['pair-' + kind.split('/')[0]] += 1
     hist['matchby-' + mk] += 1
     a, b = render(u1), render(u2)
@@ -202,8 +202,114 @@ def gen_pair(rng, hist):
         a = a[:i] + rng.choice(['\t', ' ', '[', '#', '?', '//', ':']) + a[i:]
         u1 = None
         hist['noise'] += 1
-    return {'mb': mb, 'a': a, 'b': b, 'u1': u1, 'u2': u2, 'kind': kind, 'mk': mk}
+    malformed = False
+    if rng.random() < 0.04:                             # a text that is no well-formed URI, against itself or anything else
+        a = rng.choice(MALFORMED_TEXTS)
+        if rng.random() < 0.6:
+            b = a
+        if rng.random() < 0.3:
+            a, b = b, a
+        u1 = u2 = None
+        malformed = True
+        hist['malformed-identical' if a == b else 'malformed-vs-other'] += 1
+    return {'mb': mb, 'a': a, 'b': b, 'u1': u1, 'u2': u2, 'kind': kind, 'mk': mk, 'malformed': malformed}
 
+
+
+# ----------------------------------------------------------------------------- matching rules (every MatchBy shape)
+def rules():
+    """(MatchBy value, label).  Labels starting with 'unknown' name URIs the node does not implement."""
+    u, s = MATCHBY['uri'], MATCHBY['strcmp']
+    host_up = lambda x: x.replace('http://docs.oasis-open.org', 'HTTP://DOCS.OASIS-OPEN.ORG')   # noqa: E731
+    return [(None, 'none'), ('', 'empty'), (u, 'rfc3986'), (MATCHBY['ldap'], 'ldap'), (MATCHBY['uuid'], 'uuid'), (s, 'strcmp'),
+            ('http://example.org/discovery/own-rule', 'unknown:other'), (u.upper(), 'unknown:rfc-upper'),
+            (s.upper(), 'unknown:strcmp-upper'), (host_up(u), 'unknown:rfc-mixed-case'), (host_up(s), 'unknown:strcmp-mixed-case'),
+            (u + '/', 'unknown:rfc-suffix'), (s[:-1], 'unknown:strcmp-prefix'), ('strcmp0', 'unknown:bare-word')]
+
+
+def rule_kind(mb):
+    """Which rule a MatchBy value selects, read off the WS-Discovery URIs (not off the code)."""
+    if mb is None or mb == '' or mb in (MATCHBY['uri'], MATCHBY['ldap'], MATCHBY['uuid']):
+        return 'rfc'
+    return 'strcmp' if mb == MATCHBY['strcmp'] else 'unknown'
+
+
+def pick_rule(rng, p_unknown=0.4):
+    rs = rules()
+    if rng.random() < p_unknown:
+        return rng.choice([r for r in rs if r[1].startswith('unknown')])
+    return rng.choice([r for r in rs if not r[1].startswith('unknown')])
+
+
+# texts that are no well-formed URIs (unbalanced brackets, bracketed host that is no IPv6 / IPvFuture literal)
+MALFORMED_TEXTS = ['http://[::1/x', 'x://[1.2.3.4]/a', 'x://[vz]/a', 'http://[x/a', 'x://a]/b']
+
+
+# ----------------------------------------------------------------------------- generators: services + filter
+def gen_filter_case(rng, hist):
+    """Some services and one (types, scopes) filter for _is_scope_in_list / matches_filter / filter_services.
+    The requested scope list is often VERBATIM what a service has, under every rule."""
+    base = gen_pair(rng, Counter())
+    pool = {base['a']: base['u1'], base['b']: base['u2']}
+    x = gen_uri(rng, Counter())
+    pool[render(x)] = x
+    if rng.random() < 0.4:
+        pool[rng.choice(MALFORMED_TEXTS)] = 'malformed'
+    texts = list(pool)
+    svcs = []
+    for i in range(rng.choice([1, 2, 2, 3])):
+        sc = None if rng.random() < 0.1 else [rng.choice(texts) for _ in range(rng.choice([0, 1, 1, 2, 2, 3]))]
+        svcs.append({'epr': f'e{i}', 'types': [rng.choice(TYPES) for _ in range(rng.choice([0, 1, 2]))],
+                     'scopes': None if sc is None else {'mb': pick_rule(rng, 0.2)[0], 'text': sc}})
+    r = rng.random()
+    tgt = rng.choice(svcs)
+    types = None if r < 0.5 else [t for t in tgt['types'] if rng.random() < 0.8] if r < 0.85 else \
+        [rng.choice(TYPES) for _ in range(rng.choice([0, 1, 2]))]
+    with_sc = [s for s in svcs if s['scopes'] and s['scopes']['text']]
+    r = rng.random()
+    if r < 0.08:
+        scopes, shape = None, 'no-scopes'
+    else:
+        mb, _ = pick_rule(rng)
+        if r < 0.14 or not with_sc:
+            text, shape = ([], 'empty-list') if r < 0.14 else ([rng.choice(texts) for _ in range(rng.choice([1, 2]))], 'pool')
+        else:
+            have = rng.choice(with_sc)['scopes']['text']
+            if r < 0.5:
+                text, shape = list(have), 'verbatim-list'
+            elif r < 0.62:
+                text, shape = [h for h in have if rng.random() < 0.6] or have[:1], 'verbatim-subset'
+            elif r < 0.72:
+                text, shape = list(reversed(have)) + have[:1], 'verbatim-reordered-dup'
+            elif r < 0.82:
+                text, shape = list(have) + [rng.choice(texts)], 'verbatim-plus-one'
+            else:
+                text, shape = [rng.choice(texts) for _ in range(rng.choice([1, 2, 3]))], 'pool'
+        scopes = {'mb': mb, 'text': text}
+    hist['shape-' + shape] += 1
+    return {'svcs': svcs, 'types': types, 'scopes': scopes, 'pool': pool}
+
+
+def ident_class(svcs, scopes, malformed=()):
+    """How much of the requested scope list is textually identical to what one service has (measured on the case)."""
+    if scopes is None:
+        return 'no-scopes'
+    req = scopes['text']
+    if not req:
+        return 'empty-list'
+    lists = [s['scopes']['text'] if isinstance(s['scopes'], dict) else s['scopes'] for s in svcs if s['scopes'] is not None]
+    mal = '+malformed' if any(u in malformed for u in req) else ''
+    if any(req == have for have in lists):
+        return 'identical-list' + mal
+    if any(all(u in have for u in req) for have in lists):
+        return 'all-verbatim' + mal
+    if any(u in have for u in req for have in lists):
+        return 'some-verbatim' + mal
+    return 'none-verbatim' + mal
+
+
+def rule_label(mb):
+    return next((lab for v, lab in rules() if v == mb), 'unknown:other')
 
 # ----------------------------------------------------------------------------- generators: message sequences
 NS = ['http://ns1', 'http://ns2']
@@ -225,25 +331,27 @@ SCOPE_TEXT = {render(u): u for u in SCOPE_URIS}
 ODD_URIS = [{'scheme': 'x', 'auth': None, 'parts': ['', '%FF'], 'query': None, 'frag': None},
             {'scheme': 'x', 'auth': None, 'parts': ['', '%FE'], 'query': None, 'frag': None}]
 SCOPE_TEXT.update({render(u): u for u in ODD_URIS})
-MALFORMED_SCOPES = ['x://[1.2.3.4]/a']
+MALFORMED_SCOPES = ['x://[1.2.3.4]/a', 'x://[vz]/a']       # schema-valid xs:anyURI, rejected by urlsplit
 ODD_SCOPES = [render(u) for u in ODD_URIS] + MALFORMED_SCOPES
 
 
-def gen_scope_list(rng, allow_odd=True):
+def gen_scope_list(rng, allow_odd=True, p_odd=0.04):
     n = rng.choice([0, 1, 1, 2, 3])
     out = [rng.choice(list(SCOPE_TEXT)) for _ in range(n)]
-    if allow_odd and rng.random() < 0.04:
-        out.append(rng.choice(ODD_SCOPES))
+    if allow_odd and rng.random() < p_odd:
+        out.insert(rng.randint(0, len(out)), rng.choice(ODD_SCOPES))
     return out
 
 
-def gen_svc(rng, epr, hist):
+def gen_svc(rng, epr, hist, mdv=None):
     r = rng.random()
     types = None if r < 0.1 else [rng.choice(TYPES) for _ in range(rng.choice([0, 1, 1, 2]))]
-    scopes = None if rng.random() < 0.2 else {'mb': None, 'text': gen_scope_list(rng)}
+    # the Scopes element of an announcement may carry a MatchBy attribute of its own (it plays no role for the table)
+    scopes = None if rng.random() < 0.2 else {'mb': pick_rule(rng, 0.3)[0] if rng.random() < 0.25 else None,
+                                              'text': gen_scope_list(rng, p_odd=0.08)}
     r = rng.random()
     xaddrs = None if r < 0.12 else [f'http://10.0.0.{rng.randint(1, 3)}:{rng.randint(1, 3)}/x' for _ in range(rng.choice([0, 1, 1, 2, 3]))]
-    mdv = rng.choice([1, 1, 2, 2, 3, 4, 5, 4294967295])
+    mdv = rng.choice([0, 1, 1, 2, 2, 3, 4, 5, 4294967295]) if mdv is None else mdv
     return {'epr': epr, 'types': types, 'scopes': scopes, 'xaddrs': xaddrs, 'mdv': mdv}
 
 
@@ -254,9 +362,48 @@ def gen_filter(rng):
     else:
         r = rng.random()
         mb = None if r < 0.5 else '' if r < 0.55 else MATCHBY['uri'] if r < 0.7 else MATCHBY['strcmp'] if r < 0.9 else \
-            rng.choice([MATCHBY['ldap'], 'http://example.org/other'])
+            pick_rule(rng, 0.7)[0]
         scopes = {'mb': mb, 'text': gen_scope_list(rng)}
     return types, scopes
+
+
+def gen_verbatim_filter(rng, ptypes, pscopes):
+    """A filter whose scope list is verbatim (all of / part of) what a service offers, under any rule."""
+    r = rng.random()
+    text = list(pscopes) if r < 0.6 else [x for x in pscopes if rng.random() < 0.6] or list(pscopes[:1]) if r < 0.85 else \
+        list(reversed(pscopes))
+    types = None if rng.random() < 0.5 else [x for x in ptypes if rng.random() < 0.7]
+    return types, {'mb': pick_rule(rng, 0.45)[0], 'text': text}
+
+
+def gen_bye(rng, epr, aps, hist, mdv='random'):
+    """A Bye with any of its optional parts: AppSequence header, MetadataVersion, Types, Scopes, XAddrs."""
+    m = {'kind': 'bye', 'epr': epr, 'appseq': aps, 'mdv': None, 'types': None, 'scopes': None, 'xaddrs': None}
+    if mdv != 'random':
+        m['mdv'] = mdv
+    elif rng.random() < 0.6:
+        m['mdv'] = rng.choice([0, 1, 1, 2, 2, 3, 4, 5, 4294967295])
+    if rng.random() < 0.35:
+        m['types'] = [rng.choice(TYPES) for _ in range(rng.choice([0, 1, 2]))]
+    if rng.random() < 0.35:
+        m['scopes'] = {'mb': pick_rule(rng, 0.3)[0] if rng.random() < 0.3 else None, 'text': gen_scope_list(rng)}
+    if rng.random() < 0.35:
+        m['xaddrs'] = [f'http://10.0.0.{rng.randint(1, 3)}:{rng.randint(1, 3)}/x' for _ in range(rng.choice([0, 1, 2]))]
+    for k_ in ('mdv', 'types', 'scopes', 'xaddrs', 'appseq'):
+        hist[f'bye-{k_}-' + ('absent' if m[k_] is None else 'present')] += 1
+    return m
+
+
+def gen_announce(rng, epr, mdv, hist):
+    """Hello / ProbeMatches / ResolveMatches (with AppSequence) announcing epr with the given version."""
+    aps = rng.randint(1, 3)
+    strip = [t for t in ('Types', 'XAddrs') if rng.random() < 0.2]
+    k = rng.random()
+    if k < 0.5:
+        return {'kind': 'hello', 'appseq': aps, 'svc': gen_svc(rng, epr, hist, mdv), 'strip': strip}
+    if k < 0.75:
+        return {'kind': 'resolvematches', 'appseq': aps, 'strip': strip, 'match': gen_svc(rng, epr, hist, mdv)}
+    return {'kind': 'probematches', 'appseq': aps, 'strip': strip, 'matches': [gen_svc(rng, epr, hist, mdv)]}
 
 
 def gen_seq(rng, hist):
@@ -269,12 +416,40 @@ def gen_seq(rng, hist):
     published = []
     pub_info = {}
     iid = 10
+    announced = {}              # remote epr -> scope texts of its latest generated announcement
+
+    def note_announced(m):
+        for sv in ([m['svc']] if m['kind'] == 'hello' else m['matches'] if m['kind'] == 'probematches' else
+                   [m['match']] if m['kind'] == 'resolvematches' and m['match'] else []):
+            if sv['scopes'] and sv['scopes']['text']:
+                announced[sv['epr']] = (sv['types'] or [], sv['scopes']['text'])
+
+    if rng.random() < 0.3:
+        # one epoch change of a remote service: announced with a version, Bye (carrying a lower / equal / higher / no
+        # MetadataVersion and any other optional part), announced again with a restarted version
+        epr = rng.choice(remote_eprs)
+        hi = rng.choice([2, 3, 4, 5, 4294967295])
+        rel = rng.choice(['lower', 'lower', 'equal', 'higher', 'absent'])
+        bye_v = {'lower': rng.choice([0, 1, hi - 1]), 'equal': hi, 'higher': min(hi + 1, 4294967295), 'absent': None}[rel]
+        lo = rng.choice([0, 1, 1, hi - 1, hi])
+        plan = [gen_announce(rng, epr, hi, hist), gen_bye(rng, epr, None if rng.random() < 0.5 else rng.randint(1, 3), hist, bye_v),
+                gen_announce(rng, epr, lo, hist)]
+        hist['epoch-scenario:bye-mdv-' + rel] += 1
+        for m in plan:
+            if rng.random() < 0.25:
+                events.append(['found', None, None])
+            note_announced(m)
+            hist['msg-' + m['kind']] += 1
+            events.append(['in', next_mid, m])
+            used.append(next_mid)
+            next_mid += 1
+        events.append(['found', None, None])
     for _ in range(rng.randint(3, 14)):
         r = rng.random()
         if r < 0.16:
             epr = rng.choice(local_eprs)
             iid += 1
-            sc = None if rng.random() < 0.15 else {'mb': None, 'text': gen_scope_list(rng, allow_odd=rng.random() < 0.3)}
+            sc = None if rng.random() < 0.15 else {'mb': None, 'text': gen_scope_list(rng, p_odd=0.2)}
             events.append(['pub', epr, [rng.choice(TYPES) for _ in range(rng.choice([0, 1, 2, 2]))], sc,
                            [f'http://127.0.0.1:{rng.randint(1, 3)}/p' for _ in range(rng.choice([0, 1, 2]))], iid])
             if epr not in published:
@@ -292,6 +467,9 @@ def gen_seq(rng, hist):
             hist['ev-loop'] += 1
         elif r < 0.31:
             t, s = gen_filter(rng)
+            if announced and rng.random() < 0.5:
+                t, s = gen_verbatim_filter(rng, *announced[rng.choice(sorted(announced))])
+                hist['found-verbatim'] += 1
             events.append(['found', t, s])
             hist['ev-found'] += 1
         else:
@@ -309,10 +487,18 @@ def gen_seq(rng, hist):
             if k < 0.3:
                 m = {'kind': 'hello', 'appseq': aps, 'svc': gen_svc(rng, epr, hist), 'strip': strip}
             elif k < 0.42:
-                m = {'kind': 'bye', 'epr': epr}
+                m = gen_bye(rng, epr, aps, hist)
             elif k < 0.62:
                 t, s = gen_filter(rng)
-                if pub_info and rng.random() < 0.55:
+                with_sc = sorted(e for e, (_, sc_) in pub_info.items() if sc_)
+                if with_sc and rng.random() < 0.45:
+                    # the scope list is verbatim what a published service has, under any rule (also unsupported ones)
+                    odd = [e for e in with_sc if any(x in MALFORMED_SCOPES for x in pub_info[e][1])]
+                    t, s = gen_verbatim_filter(rng, *pub_info[rng.choice(odd if odd and rng.random() < 0.6 else with_sc)])
+                    if odd and rng.random() < 0.5:
+                        s['mb'] = pick_rule(rng, 0.0)[0]        # a supported rule: a malformed scope must not match itself
+                    hist['probe-verbatim'] += 1
+                elif pub_info and rng.random() < 0.55:
                     # ask for (part of) what a published service offers: types subset, scopes that are prefixes / re-spellings
                     ptypes, pscopes = pub_info[rng.choice(sorted(pub_info))]
                     t = None if rng.random() < 0.3 else [x for x in ptypes if rng.random() < 0.7]
@@ -347,6 +533,7 @@ def gen_seq(rng, hist):
             else:
                 m = {'kind': 'other'}
             hist['msg-' + m['kind']] += 1
+            note_announced(m)
             events.append(['in', mid, m])
     hist[f'cap-{cap}'] += 1
     return {'cap': cap, 'events': events}
@@ -380,7 +567,9 @@ def msg_tok(m):
     if k == 'hello':
         return f"hello {aps_tok(m['appseq'])} {svc_tok(m['svc'])}"
     if k == 'bye':
-        return f"bye {hx(m['epr'])}"
+        sc = '~' if m.get('scopes') is None else strs_tok(m['scopes']['text'])
+        return (f"bye {hx(m['epr'])} {aps_tok(m.get('appseq'))} {aps_tok(m.get('mdv'))} {types_tok(m.get('types') or [])} {sc} "
+                f"{strs_tok(m.get('xaddrs') or [])}")
     if k == 'probe':
         return f"probe {'~' if m['types'] is None else types_tok(m['types'])} {sf_tok(m['scopes'])}"
     if k == 'probematches':
@@ -454,7 +643,8 @@ def scope_ref_match(mb, my, other):
     return False
 
 
-def ref_matches(svc_types, svc_scopes, types, scopes):
+def ref_matches(svc_types, svc_scopes, types, scopes, sref=None):
+    sref = sref or scope_ref_match
     if types is not None:
         for t in types:
             if not any(t[0] == u[0] and t[1] == u[1] for u in svc_types):
@@ -463,7 +653,7 @@ def ref_matches(svc_types, svc_scopes, types, scopes):
         for uri in scopes['text']:
             if svc_scopes is None:
                 return False
-            verdicts = [scope_ref_match(scopes['mb'], uri, e) for e in svc_scopes]
+            verdicts = [sref(scopes['mb'], uri, e) for e in svc_scopes]
             if any(v is True for v in verdicts):
                 continue
             if any(v is None for v in verdicts):
@@ -479,8 +669,13 @@ def oracle_seq(ctx, c, tr, stats):
     local = {}                  # epr -> (types, scopes text|None, xaddrs, mdv)
     ann = {}                    # epr -> versions announced since the last Bye (of acted-on messages)
     ann_full = {}               # epr -> [(version, types, scopes)] announced since the last Bye
+    before_bye = {}             # epr -> highest version recorded when its last Bye arrived
 
     def note_ann(svc):
+        if svc['epr'] not in ann and svc['epr'] in before_bye:
+            pre = before_bye.pop(svc['epr'])
+            stats['first-announcement-after-bye:version-' + ('lower' if svc['mdv'] < pre else 'equal' if svc['mdv'] == pre
+                                                             else 'higher') + '-than-before-the-bye'] += 1
         ann.setdefault(svc['epr'], []).append(svc['mdv'])
         ann_full.setdefault(svc['epr'], []).append(
             (svc['mdv'], tuple(tuple(t) for t in (svc['types'] or [])), tuple((svc['scopes'] or {}).get('text') or [])))
@@ -546,6 +741,10 @@ def oracle_seq(ctx, c, tr, stats):
                 if undecided:
                     stats['probe-out-of-reference'] += 1
                 else:
+                    if m['scopes'] is not None and m['scopes']['text']:
+                        stats['probe-judged: ' + ident_class([{'scopes': v_[1]} for v_ in local.values()], m['scopes'],
+                                                             MALFORMED_SCOPES) + ' x ' + rule_label(m['scopes']['mb']) +
+                              (' -> answered' if want else ' -> silent')] += 1
                     if want:
                         stats['probe-answered'] += 1
                     if got != want:
@@ -581,6 +780,15 @@ def oracle_seq(ctx, c, tr, stats):
                 elif kind == 'resolvematches' and m.get('appseq') is not None and m['match'] is not None and m['match']['epr']:
                     note_ann(m['match'])
                 elif kind == 'bye':
+                    # "since its last Bye", literally: an acted-on Bye for the endpoint reference ends the history,
+                    # whatever else it carries (AppSequence or not, any MetadataVersion, Types, Scopes, XAddrs)
+                    rec = max(ann[m['epr']]) if m['epr'] in ann else None
+                    v = m.get('mdv')
+                    stats['bye:' + ('no-entry' if rec is None else 'entry') + ',mdv-' +
+                          ('absent' if v is None else 'n/a' if rec is None else 'lower' if v < rec else 'equal' if v == rec
+                           else 'higher') + ('' if all(m.get(x) is None for x in ('types', 'scopes', 'xaddrs')) else ',extras')] += 1
+                    if rec is not None:
+                        before_bye[m['epr']] = rec
                     ann.pop(m['epr'], None)
                     ann_full.pop(m['epr'], None)
         # ---- table clause after every event: per epr the highest version since its last Bye
@@ -599,6 +807,24 @@ def oracle_seq(ctx, c, tr, stats):
                 fail(f'after event {k} the entry of {e} (version {max(ann[e])}) has types {types} / scopes {scopes}, which no '
                      f'announcement with that version carried: {top}', 'table-entry-content', k)
                 return
+        # ---- client-side query: exactly the entries of the table (as observed) that match under the requested rule
+        if ev[0] == 'found' and isinstance(st['note'], dict):
+            want, undecided = [], False
+            for e, types, scopes in st.get('remote_content', []):
+                v = ref_matches(types, scopes, ev[1], ev[2])
+                undecided = undecided or v is None
+                if v:
+                    want.append(e)
+            if undecided:
+                stats['found-out-of-reference'] += 1
+            else:
+                stats['found-judged'] += 1
+                if ev[2] is not None and ev[2]['text']:
+                    stats['found-judged: ' + ident_class([{'scopes': sc_} for _, _, sc_ in st['remote_content']], ev[2],
+                                                         MALFORMED_SCOPES) + ' x ' + rule_label(ev[2]['mb'])] += 1
+                if st['note']['found'] != want:
+                    fail(f'get_found_remote_services(types={ev[1]}, scopes={ev[2]}) returns {st["note"]["found"]}, the entries '
+                         f'matching under the requested rule are {want}', 'found-exact', k)
         # own messages created by this event, for later loop-backs
         for o in outs:
             n_sent += 1
@@ -643,13 +869,16 @@ def run(ctx):
                   'u2': {'scheme': 'x', 'auth': None, 'parts': ['', '%FE'], 'query': None, 'frag': None}}]
     shist = Counter()
     seqs = [gen_seq(ctx.rng, shist) for _ in range(ctx.n(600, 12000))]
+    fhist = Counter()
+    filters = [gen_filter_case(ctx.rng, fhist) for _ in range(ctx.n(2500, 60000))]
     impl = ctx.impl('c14_impl', {'pairs': [{'mb': p['mb'], 'a': p['a'], 'b': p['b']} for p in pairs], 'seqs': seqs,
+                                 'filters': [{k_: c[k_] for k_ in ('svcs', 'types', 'scopes')} for c in filters],
                                  'scope_pool': list(SCOPE_TEXT) + MALFORMED_SCOPES},
                     timeout=2400)
     if impl.get('_crash'):
         ctx.broken('correspondence', 'implementation run', impl['stderr'])
         return ctx.finish('implementation run crashed', [], [])
-    ctx.log(f'implementation run: {time.time() - t0:.1f}s for {len(pairs)} pairs + {len(seqs)} sequences')
+    ctx.log(f'implementation run: {time.time() - t0:.1f}s for {len(pairs)} pairs + {len(filters)} filter cases + {len(seqs)} sequences')
     exe, log = ctx.ocaml_driver('Extract/Extract_Wsd_Match.v', 'wsd_match_model', 'driver_c14')
     if exe is None:
         ctx.broken('correspondence', 'extraction/driver build', log[-1500:])
@@ -663,11 +892,13 @@ def run(ctx):
 
     # ------------------------------------------------------------------ stream 1: scope pairs
     lines, wants, idx, coq = [], [], [], []
-    verdicts = Counter()
+    verdicts, pair_ident = Counter(), Counter()
     n_oom_split = n_oom_lower = n_oom_utf8 = n_ref = 0
     for i, (p, r) in enumerate(zip(pairs, impl['pairs'])):
         res = r['res']
         verdicts[f"{p['mk']}:{res}"] += 1
+        if p['a'] == p['b']:
+            pair_ident[('malformed' if p.get('malformed') else 'well-formed or noise') + ' x ' + rule_label(p['mb']) + f' -> {res}'] += 1
         rfc = p['mk'] in ('none', 'empty', 'rfc3986', 'ldap/uuid')
         # ---- oracle: the statement evaluated directly
         if isinstance(res, str):
@@ -683,6 +914,11 @@ def run(ctx):
         elif p['mk'] == 'unknown':
             if res != 0:
                 ctx.fail(f'unknown MatchBy {p["mb"]!r} matched', {'stream': 'pairs', 'clause': 'unknown-matchby'},
+                         {'stream': 'pairs', 'case': {k_: p[k_] for k_ in ('mb', 'a', 'b')}, 'impl_trace': r})
+        elif p.get('malformed'):
+            if res != 0:
+                ctx.fail(f'{p["a"]!r} / {p["b"]!r}: one of them is no well-formed URI, yet match_scope says {res} under MatchBy={p["mb"]!r}',
+                         {'stream': 'pairs', 'clause': 'malformed-matches-nothing'},
                          {'stream': 'pairs', 'case': {k_: p[k_] for k_ in ('mb', 'a', 'b')}, 'impl_trace': r})
         elif p['u1'] is not None and p['u2'] is not None:
             ag1, ag2 = py_split_agrees(p['u1'], p['a']), py_split_agrees(p['u2'], p['b'])
@@ -733,10 +969,151 @@ def run(ctx):
               also_evaluated_inside_coq=len(coq), judged_by_reference_matcher=n_ref,
               out_of_model={'renderer_vs_urlsplit_split_differs': n_oom_split, 'non_ascii_authority': n_oom_lower,
                             'skipped_for_model_non_ascii_authority': len(pairs) - len(lines)},
-              verdicts=dict(sorted(verdicts.items())), generator_histogram=dict(sorted(hist.items())))
+              verdicts=dict(sorted(verdicts.items())), identical_text_x_rule=dict(sorted(pair_ident.items())),
+              generator_histogram=dict(sorted(hist.items())))
     k_ = next((i for i, r in enumerate(impl['pairs']) if r['res'] == 1 and pairs[i]['kind'].startswith('recoded')), 0)
     ctx.sample({'stream': 'pairs', 'case': {x: pairs[k_][x] for x in ('mb', 'a', 'b', 'kind')}, 'impl': impl['pairs'][k_]})
     ctx.log(f'pairs compared, t={time.time() - t0:.1f}s')
+
+    # ------------------------------------------------------------------ stream 1b: services x filter
+    # _is_scope_in_list / matches_filter / filter_services; the requested scope list is mostly verbatim what a service has
+    lines, wants, idx, coq = [], [], [], []
+    xhist, fstats = Counter(), Counter()
+
+    def qn_lit(t):
+        return f'({blit(t[0])}, {blit(t[1])})'
+
+    def lst(xs, ty):
+        return f'([{"; ".join(xs)}] : list {ty})'
+
+    for i, (c, r) in enumerate(zip(filters, impl['filters'])):
+        pool = c['pool']
+        sc = c['scopes']
+        ic = ident_class(c['svcs'], sc, [t for t, u in pool.items() if u == 'malformed'])
+        lab = 'n/a' if sc is None else rule_label(sc['mb'])
+        kind = 'n/a' if sc is None else rule_kind(sc['mb'])
+        xhist[f'{ic} x {lab}'] += 1
+
+        def sref(mb, uri, entry, pool=pool, split=r['split']):
+            """Reference verdict for one requested scope against one scope of a service (None: not decidable here)."""
+            k = rule_kind(mb)
+            if k == 'strcmp':
+                return uri == entry
+            if k == 'unknown':
+                return False
+            if pool.get(uri) == 'malformed' or pool.get(entry) == 'malformed':
+                return False                                     # not a well-formed URI: matches nothing, not even itself
+            u1, u2 = pool.get(uri), pool.get(entry)
+            if not isinstance(u1, dict) or not isinstance(u2, dict):
+                return None
+            if py_split_agrees(u1, uri) is not True or py_split_agrees(u2, entry) is not True:
+                return None
+            if split[uri] != 'ok' or split[entry] != 'ok':
+                return None
+            return ref_match_rfc(u1, u2)
+
+        def ffail(what, clause, c=c, r=r, kind=kind, ic=ic):
+            ctx.fail(what, {'stream': 'filters', 'clause': clause, 'rule': kind, 'identical': ic.split('+')[0]},
+                     {'stream': 'filters', 'case': {k_: c[k_] for k_ in ('svcs', 'types', 'scopes')}, 'impl_trace': r,
+                      'oracle': {'verdict': 'fail', 'clause': clause}})
+
+        exp_m = []
+        for j, sv in enumerate(c['svcs']):
+            have = None if sv['scopes'] is None else sv['scopes']['text']
+            types_ok = c['types'] is None or all(any(t == u for u in sv['types']) for t in c['types'])
+            for k_, u in enumerate(sc['text'] if sc else []):
+                vs = [] if have is None else [sref(sc['mb'], u, e) for e in have]
+                want = True if any(v is True for v in vs) else None if any(v is None for v in vs) else False
+                got = r['in_list'][j][k_]
+                if got == 2:
+                    ffail(f'_is_scope_in_list({u!r}, {sc["mb"]!r}, {have}) raised', 'filter-total')
+                elif want is None:
+                    fstats['scope-in-list out of reference'] += 1
+                else:
+                    fstats['scope-in-list judged'] += 1
+                    if got != int(want):
+                        ffail(f'_is_scope_in_list({u!r}, MatchBy={sc["mb"]!r}, {have}) = {got}; under the requested rule '
+                              f'({kind}) the answer is {int(want)}', 'scope-in-list')
+            m = ref_matches(sv['types'], have, c['types'], sc, sref)
+            exp_m.append(m)
+            got = r['matches'][j]
+            if got == 2:
+                ffail(f'matches_filter raised for service {sv}', 'filter-total')
+            elif m is not None and got != int(m):
+                ffail(f'matches_filter(service types={sv["types"]} scopes={have}, types={c["types"]}, scopes={sc}) = {got}; the '
+                      f'service offers all requested types and matches all requested scopes under the requested rule: {m}',
+                      'matches-filter')
+            # matches_filter is the conjunction of its parts
+            if got != 2 and 2 not in r['in_list'][j] and got != int(types_ok and all(r['in_list'][j])):
+                ffail(f'matches_filter = {got} although types_ok={types_ok} and the scope verdicts are {r["in_list"][j]}',
+                      'matches-filter-consistent')
+        if r['kept'] is None:
+            ffail('filter_services raised', 'filter-total')
+        else:
+            if r['kept'] != [sv['epr'] for sv, g in zip(c['svcs'], r['matches']) if g == 1]:
+                ffail(f'filter_services keeps {r["kept"]}, matches_filter says {r["matches"]}', 'filter-services-consistent')
+            if all(m is not None for m in exp_m):
+                fstats['case judged by the reference'] += 1
+                fstats['... with a non-empty answer'] += int(any(exp_m))
+                want = [sv['epr'] for sv, m in zip(c['svcs'], exp_m) if m]
+                if r['kept'] != want:
+                    ffail(f'filter_services(types={c["types"]}, scopes={sc}) keeps {r["kept"]}, the services matching under the '
+                          f'requested rule ({kind}) are {want}', 'filter-services')
+            else:
+                fstats['case out of reference'] += 1
+        # ---- model comparison
+        if kind == 'rfc' and 'nonascii-netloc' in r['split'].values():
+            fstats['skipped for the model: non-ASCII authority'] += 1
+            continue
+        badl = [t for t, v in r['split'].items() if v == 'bad']
+        svs = [dict(sv, xaddrs=[], mdv=1) for sv in c['svcs']]
+        lines.append(f"F 1 {strs_tok(badl)} {len(svs)} " + ' '.join(svc_tok(sv) for sv in svs) +
+                     f" {'~' if c['types'] is None else types_tok(c['types'])} {sf_tok(sc)}")
+        wants.append(' '.join(''.join(str(d) for d in row) + ':' + str(m) for row, m in zip(r['in_list'], r['matches'])) + ' |' +
+                     (' E' if r['kept'] is None else ''.join(' ' + hx(e) for e in r['kept'])))
+        idx.append(i)
+        if len(coq) < ctx.n(60, 400):
+            svl = [f"(mkService {blit(sv['epr'])} {lst([qn_lit(t) for t in sv['types']], 'qname')} " +
+                   ('None' if sv['scopes'] is None else f"(Some {lst([blit(x) for x in sv['scopes']['text']], 'bytes')})") +
+                   ' [] 1%Z 1%Z)' for sv in c['svcs']]
+            tyl = '(None : option (list qname))' if c['types'] is None else \
+                f"(Some {lst([qn_lit(t) for t in c['types']], 'qname')} : option (list qname))"
+            sfl = '(None : option scopes_filter)' if sc is None else \
+                f"(Some ({oblit(sc['mb'])}, {lst([blit(x) for x in sc['text']], 'bytes')}) : option scopes_filter)"
+            per = lst([f"({lst([str(d) for d in row], 'N')}, {m})" for row, m in zip(r['in_list'], r['matches'])], '(list N * N)')
+            kept = '(None : option (list bytes))' if r['kept'] is None else \
+                f"(Some {lst([blit(e) for e in r['kept']], 'bytes')} : option (list bytes))"
+            coq.append((f"({lst([blit(t) for t in badl], 'bytes')}, {lst(svl, 'Match.service')}, {tyl}, {sfl})", f'({per}, {kept})'))
+    if exe:
+        got, err = model(lines)
+        if err:
+            ctx.broken('correspondence', 'filters (extracted model run)', err)
+        else:
+            diffs = [j for j, (w, g) in enumerate(zip(wants, got)) if w.split() != g.split()]
+            if diffs:
+                c = filters[idx[diffs[0]]]
+                ctx.broken('correspondence', 'filters', {'disagreements': len(diffs), 'of': len(lines),
+                                                         'first': {'case': {k_: c[k_] for k_ in ('svcs', 'types', 'scopes')},
+                                                                   'impl': wants[diffs[0]], 'model': got[diffs[0]]}})
+    mism, err = ctx.coq_mism('filters', HEADER,
+                             'prod_eqb (list_eqb (prod_eqb (list_eqb N.eqb) N.eqb)) (option_eqb (list_eqb bytes_eqb))',
+                             "fun c => let '(badl, svs, ty, sf) := c in run_filter match_consts true badl svs ty sf", coq, deps=DEPS,
+                             shard=30)
+    if err:
+        ctx.broken('correspondence', 'filters (coq evaluation)', err)
+    for j in mism[:1]:
+        ctx.broken('correspondence', 'filters (inside Coq)', {'disagreements': len(mism), 'first': coq[j]})
+    ctx.count('filters', len(filters), [json.dumps({k_: c[k_] for k_ in ('svcs', 'types', 'scopes')}, sort_keys=True) for c in filters],
+              compared_with_model=len(lines), also_evaluated_inside_coq=len(coq),
+              requested_scopes_identical_text_x_rule=dict(sorted(xhist.items())),
+              oracle_statistics=dict(sorted(fstats.items())), generator_histogram=dict(sorted(fhist.items())),
+              verdicts={'matches_filter': dict(sorted(Counter(m for r in impl['filters'] for m in r['matches']).items())),
+                        'services_kept': dict(sorted(Counter(-1 if r['kept'] is None else len(r['kept'])
+                                                             for r in impl['filters']).items()))})
+    k_ = next((i for i, c in enumerate(filters) if c['scopes'] and rule_kind(c['scopes']['mb']) == 'unknown' and
+               ident_class(c['svcs'], c['scopes']).startswith('identical-list')), 0)
+    ctx.sample({'stream': 'filters', 'case': {x: filters[k_][x] for x in ('svcs', 'types', 'scopes')}, 'impl': impl['filters'][k_]})
+    ctx.log(f'filters compared, t={time.time() - t0:.1f}s')
 
     # ------------------------------------------------------------------ stream 2: message sequences
     stats = Counter()
@@ -774,7 +1151,9 @@ def run(ctx):
                             'first': {'case': seqs[j], 'first_difference_at_step': d,
                                       'impl': w[d] if d < len(w) else None, 'model': g[d] if d < len(g) else None}})
     ctx.count('sequences', len(seqs), [json.dumps(c, sort_keys=True) for c in seqs],
-              events=sum(len(c['events']) for c in seqs), oracle_statistics=dict(sorted(stats.items())),
+              events=sum(len(c['events']) for c in seqs),
+              oracle_statistics=dict(sorted((k_, v) for k_, v in stats.items() if ' x ' not in k_)),
+              identical_text_x_rule=dict(sorted((k_, v) for k_, v in stats.items() if ' x ' in k_)),
               generator_histogram=dict(sorted(shist.items())),
               final_table_sizes=dict(sorted(Counter(len(tr['remote']) for tr in impl['seqs']).items())))
     ctx.sample({'stream': 'sequences', 'case': seqs[0], 'final_remote': impl['seqs'][0]['remote'], 'known': impl['seqs'][0]['known']})
@@ -790,12 +1169,21 @@ def run(ctx):
              'pool with encoded slashes, empty segments, trailing slashes, %-escapes in both cases, invalid escapes, dot '
              'segments, query / fragment) and a related second URI (longer, shorter, re-encoded, case-changed, ...), all '
              'MatchBy values, through the real match_scope; verdict compared with the extracted model on the texts and '
-             'judged by an independent reference matcher on the components.  sequences: publish / clear / incoming Hello, Bye, '
-             'Probe, ProbeMatches, Resolve, ResolveMatches (missing optional parts, missing AppSequence, duplicate message ids, '
-             'own messages looped back, small id memories) through the real message factory, parser, NetworkingThread._run_q_read '
+             'judged by an independent reference matcher on the components; texts that are no well-formed URIs against themselves '
+             'and others.  filters: one to three services and a (types, scopes) filter whose scope list is mostly VERBATIM what a '
+             'service has (whole list, subset, reordered, plus one), under every MatchBy shape (absent, empty, rfc3986, ldap, uuid, '
+             'strcmp0 and eight unsupported URIs: foreign, upper-cased, mixed-case, prefix, suffix, bare word), with malformed scope '
+             'texts, through the real _is_scope_in_list / matches_filter / filter_services; every verdict compared with the model '
+             'and judged by the reference matcher under the rule the MatchBy value names (histogram identical text x rule).  '
+             'sequences: publish / clear / incoming Hello, Bye (with / without AppSequence, MetadataVersion lower / equal / higher '
+             'than the recorded one, Types, Scopes, XAddrs), Probe and client-side queries (scope lists verbatim what a published / '
+             'announced service has, under every rule), ProbeMatches, Resolve, ResolveMatches (missing optional parts, Scopes with a '
+             'MatchBy of their own, missing AppSequence, version 0 and 2^32-1, duplicate message ids, own messages looped back, small '
+             'id memories; epoch scenarios announce - Bye - announce with a restarted version) through the real message factory, parser, NetworkingThread._run_q_read '
              'and WSDiscovery; every outbound message, the final tables and the id memory compared with the model; the oracle '
-             're-computes the statement (highest version since last Bye, exact Probe answers, Resolve only if published, no '
-             'action on remembered ids) from the event list alone.',
+             're-computes the statement (highest version since the last acted-on Bye whatever that Bye carries, exact Probe answers '
+             'and exact get_found_remote_services results under the requested rule, Resolve only if published, no action on '
+             'remembered ids) from the event list alone.',
         assumptions=['a Python str is identified with its UTF-8 encoding',
                      'authorities with non-ASCII characters are out of model (unicode-aware lower(), NFKC check)',
                      'verdicts of the ipaddress / NFKC checks inside urlsplit are taken from Python (abstract bit)'],
@@ -812,12 +1200,15 @@ def run(ctx):
 def replay(ctx, rep):
     """./check C14 --replay <file>: run the recorded case again on the implementation and print what it does."""
     stream, case = rep.get('stream'), rep.get('case')
-    if not case or stream not in ('pairs', 'sequence'):
+    if not case or stream not in ('pairs', 'filters', 'sequence'):
         print(json.dumps(rep, indent=1)[:4000])
         return 0
     if stream == 'pairs':
         impl = ctx.impl('c14_impl', {'pairs': [{k_: case[k_] for k_ in ('mb', 'a', 'b')}]})
         now = impl.get('pairs', impl)
+    elif stream == 'filters':
+        impl = ctx.impl('c14_impl', {'filters': [case]})
+        now = impl.get('filters', impl)
     else:
         impl = ctx.impl('c14_impl', {'seqs': [case]})
         now = impl.get('seqs', impl)
